@@ -563,7 +563,7 @@ def _last_truth(p, term):
 @rule('C04.R10', "waiting for one source does not pump another: while recv() waits, its repeated request re-arms a publisher ('requested' goes up on EVERY request, C04.R1), so a request that goes to a source whose set for "
                  "the current id is already complete makes that source publish a further frame per poll interval for as long as a slower sibling source is awaited - the request is withheld from complete sources, or "
                  "marked so that the publisher does not count it (and the publisher honours the mark)")
-def r10(rr, repo):
+def r10(rr, repo, balanced=True):
     za = anchors(repo)
     sends = [c for c in q.calls_in(za.R_req) if isinstance(c.func, ast.Attribute) and c.func.attr == 'send_push']
     rr.floor('request sends in recv().request', len(sends), 1, za.mod, za.R_req)
@@ -583,6 +583,17 @@ def r10(rr, repo):
         rr.ob("the repeated request spares a source whose set is already complete (not sent to it, or sent with a mark the publisher reads)", withheld or bool(honoured), za.mod, c,
               witness=f'{U(c)} under [{" && ".join(U(t) for t, _ in q.guards_of(c, stop=za.R_req)) or "no condition"}]; marks set for complete sources: {[q.const_str(m.targets[0].slice) for m in marks] or "none"}; read by the publisher: {honoured or "none"}',
               key='rearm-complete-source')
+    # a balanced join takes ONE frame from ONE of its sources per recv(), yet its request - the prefetch after a frame included - goes to all k sources, and each worker counts it as a permission to
+    # publish: k frames are published towards the joiner for every frame it takes, the surplus queues up (and is dropped as 'older' later) - linear in the length of the run when the joiner is the
+    # slowest stage. The request has to go to the one source that was served (or carry a mark the workers honour).
+    for c in (sends if balanced else []):
+        from ..model import ancestors as ancestors_of
+        loops = [a for a in ancestors_of(c) if isinstance(a, ast.For)]
+        over_all = bool(loops) and U(loops[0].iter) in ('sendervs', 'senders.values()', 'self.senders.values()')
+        bal_aware = any('balance' in U(t) for t, pol in q.guards_of(c, stop=za.R_req)) or any(isinstance(n, ast.Assign) and isinstance(n.targets[0], ast.Subscript) and U(n.targets[0].value) == req and 'bal' in (q.const_str(n.targets[0].slice) or '')
+                                                                                      for n in walk_scope(za.R_req))
+        rr.ob('under balanced sources a request is not a permission for every worker at once', not over_all or bal_aware, za.mod, c,
+              witness=f'{U(c)} inside `for .. in {U(loops[0].iter) if loops else None}`; nothing in request() depends on the sources being balanced', key='balanced-join-request-fans-out')
     # the waiting loop really repeats the request every poll interval (so the pumping is per interval, not once)
     loop = [n for n in walk_scope(za.R_recv) if isinstance(n, ast.While)]
     rep = [c for n in loop for c in q.calls_in(n, into_functions=False) if U(c.func) == 'request']
